@@ -176,7 +176,7 @@ async def ip_history(ctx, history: str, key) -> None:
 # BLE
 # ---------------------------------------------------------------------------------------------
 
-BLE_ALPHABET = "rwLPUKct"
+BLE_ALPHABET = "rwLPUKctRD"
 
 
 async def ble_history(ctx, history: str, key, cancel_at=None) -> None:
@@ -187,10 +187,29 @@ async def ble_history(ctx, history: str, key, cancel_at=None) -> None:
     w = sim_ble_acc.BleWorld(rng)
     w.accessory.monitor = mon
     replay = {"t": "ble", "history": history, "cancel_at": cancel_at, "key": key}
-    ctx.case("ble", history, cancel_at, nontrivial=any(c in history for c in "PUKct") or cancel_at is not None,
+    ctx.case("ble", history, cancel_at, nontrivial=any(c in history for c in "PUKctD") or cancel_at is not None,
              sample={"transport": "ble", "history": history, "cancel_at_loop_iteration": cancel_at}, kind="ble-sweep" if cancel_at is not None else ("ble-rand" if len(history) > 6 else "ble"))
     acc = w.accessory
     loop = asyncio.get_running_loop()
+    long_value: dict = {}
+    # second observation point, ABOVE the cipher: what the session's receive key object hands to the PDU layer. Whatever sits
+    # between the two (a cache of recent reads, a retry wrapper) cannot make one ciphertext count as a message twice.
+    from aiohomekit.controller.ble import key as keymod
+
+    orig_key_decrypt = keymod.DecryptionKey.decrypt
+    handed_up: dict = {}
+
+    def key_decrypt(self_, data):
+        out = orig_key_decrypt(self_, data)
+        sig = (id(self_), bytes(data))
+        if sig in handed_up and not handed_up.get("reported"):
+            handed_up["reported"] = True
+            ctx.violation("ble-accepted-twice", f"history {history!r}: the session's receive key handed the same {len(data)}-byte ciphertext to the PDU layer a second time (first as message #{handed_up[sig]}, now as #{len(handed_up)})", replay)
+        handed_up.setdefault(sig, len(handed_up))
+        ctx.count("ble_messages_handed_up_by_the_receive_key")
+        return out
+
+    keymod.DecryptionKey.decrypt = key_decrypt
 
     def arm(fault):
         def hook(client, handle, pending):
@@ -211,6 +230,16 @@ async def ble_history(ctx, history: str, key, cancel_at=None) -> None:
                 b = bytearray(out[0])
                 b[rng.randrange(len(b))] ^= 1 << rng.randrange(8)
                 out[0] = bytes(b)
+            elif fault == "D" and len(out) >= 3:
+                # the link hands the controller a fragment it has just been given a second time, in place of the next one
+                k = rng.choice([rng.randrange(0, len(out) - 1), len(out) - 2])
+                out[k + 1] = out[k]
+                ctx.count("ble_fragments_duplicated_in_place_of_the_next")
+            elif fault == "D":
+                # single-fragment response: the previous response once more
+                older = [ct for ct in s.produced if ct not in out]
+                if older:
+                    out[0] = older[-1]
             return out
 
         acc.response_hook = hook
@@ -221,7 +250,24 @@ async def ble_history(ctx, history: str, key, cancel_at=None) -> None:
         if kind == "L":
             # a request that needs several fragments (each fragment is sealed under its own counter value)
             ctx.count("ble_multi_fragment_requests")
-            return await w.pairing.put_characteristics([(1, 15, "v" * rng.choice([300, 400, 700]))])
+            text = "".join(rng.choice("abcdefghijklmnopqrstuvwxyz0123456789") for _ in range(rng.choice([300, 400, 700, 296, 446, 594])))  # the last three: every response fragment is full (150 bytes)
+            res = await w.pairing.put_characteristics([(1, 15, text)])
+            if not res and acc.values.get(15) == ("raw", text.encode()):
+                long_value["text"] = text
+            return res
+        if kind == "R":
+            # ... and a RESPONSE of several fragments: reading the long value back. End-to-end oracle (independent of the
+            # decryptor hook): a read returns what the accessory holds, or fails
+            want = long_value.get("text")
+            res = await w.pairing.get_characteristics([(1, 15)])
+            got = res.get((1, 15), {}).get("value")
+            if want is not None and acc.values.get(15) == ("raw", want.encode()):
+                if "value" in res.get((1, 15), {}) and got != want:
+                    d = next((i for i, (x, y) in enumerate(zip(got or "", want)) if x != y), min(len(got or ""), len(want)))
+                    ctx.violation("ble-response-differs-from-what-the-accessory-sent", f"history {history!r}: read of a {len(want)}-character value returned {len(got or '')} characters, first difference at {d} (fragments of the response were not the ones sealed for it)", replay)
+                elif got == want:
+                    ctx.count("ble_multi_fragment_responses_read_back")
+            return res
         return await w.pairing.get_characteristics([(1, rng.choice([11, 14]))])
 
     try:
@@ -233,10 +279,10 @@ async def ble_history(ctx, history: str, key, cancel_at=None) -> None:
             return
         pending_fault = None
         for i, a in enumerate(history):
-            if a in "PUK":
+            if a in "PUKD":
                 pending_fault = a
                 continue
-            if a in "rwL":
+            if a in "rwLR":
                 if pending_fault:
                     arm(pending_fault)
                     pending_fault = None
@@ -289,6 +335,7 @@ async def ble_history(ctx, history: str, key, cancel_at=None) -> None:
             ctx.violation("ble-session-key-reused-across-sessions", f"history {history!r}: {len(acc.sessions)} sessions share a key", replay)
         report(ctx, "ble", history, findings, replay)
     finally:
+        keymod.DecryptionKey.decrypt = orig_key_decrypt
         loop.at_iteration.clear()
         mon.remove()
         await w.close()
@@ -617,7 +664,13 @@ def run(ctx) -> None:
             idx += 1
             if ctx.mine(idx):
                 await coap_history(ctx, h, ("directed", h))
-        ctx.exhaustive_parts[f"all histories to depth {d_ip} (IP, 10 actions), {d_ble} (BLE, 8), {d_coap} (CoAP, 15)"] = True
+        # directed BLE histories: a long value is written, then read back (a response of several fragments) with and without
+        # a fragment handed over twice
+        for h in ("LR", "LDR", "LRDR", "LDRR", "wLDRr", "LRRDRPR", "LKR", "LUR", "LPR"):
+            idx += 1
+            if ctx.mine(idx):
+                await ble_history(ctx, h, ("directed-ble", h))
+        ctx.exhaustive_parts[f"all histories to depth {d_ip} (IP, 10 actions), {d_ble} (BLE, 10), {d_coap} (CoAP, 15)"] = True
         # BLE cancellation sweep: cancel at every loop iteration of a request (after 0-2 earlier requests)
         for pre in ("", "r", "wr"):
             for k in range(1, ctx.pick(60, 120)):
@@ -632,7 +685,7 @@ def run(ctx) -> None:
             if t == 0:
                 await ip_history(ctx, "1" + "".join(rng.choice("112233GGGGRFXCTE") for _ in range(n)), ("r", ctx.shard, k))
             elif t == 1:
-                await ble_history(ctx, "".join(rng.choice("rrrwwLPUKct") for _ in range(min(n, 16))), ("r", ctx.shard, k))
+                await ble_history(ctx, "".join(rng.choice("rrrwwLLPUKctRRD") for _ in range(min(n, 16))), ("r", ctx.shard, k))
             else:
                 await coap_history(ctx, "".join(rng.choice("GGGGGRSFCNXYZPeeegscb") for _ in range(n)), ("r", ctx.shard, k))
 
